@@ -212,3 +212,174 @@ mod verif_c14 {
   }
   // VERIF-END verif_c14
 }
+
+#[cfg(all(kani, verif_c15))]
+mod verif_c15 {
+  use super::*;
+  use crate::vassert;
+  use crate::verif::vstub;
+
+  // ---------------- reference compositor (Pan Docs: LCDC, tile data/maps, OAM, priorities) ----------------
+  fn shade(pal: u8, idx: u8) -> u8 { [255u8, 170, 85, 0][((pal >> (2 * idx)) & 3) as usize] }
+  fn tile_pixel(vram: &[u8], addr: usize, row: usize, col: usize) -> u8 {
+    let lo = vram[addr + 2 * row]; let hi = vram[addr + 2 * row + 1];
+    let bit = 7 - col;
+    (((hi >> bit) & 1) << 1) | ((lo >> bit) & 1)
+  }
+  fn bgwin_tile_addr(lcdc: u8, index: u8) -> usize {
+    if lcdc & 0x10 != 0 { index as usize * 16 } else { (0x1000i32 + (index as i8 as i32) * 16) as usize }
+  }
+  /// colour index (0-3) of the BG/window layer at screen (x, ly)
+  fn ref_bgwin(vram: &[u8], lcdc: u8, scx: u8, scy: u8, wx: u8, wy: u8, x: usize, ly: u8) -> u8 {
+    let win = lcdc & 0x20 != 0 && ly >= wy && x + 7 >= wx as usize;
+    if win {
+      let map = if lcdc & 0x40 != 0 { 0x1c00 } else { 0x1800 };
+      let px = x + 7 - wx as usize; let py = (ly - wy) as usize;
+      let t = vram[map + (py / 8) * 32 + px / 8];
+      tile_pixel(vram, bgwin_tile_addr(lcdc, t), py % 8, px % 8)
+    } else {
+      let map = if lcdc & 0x08 != 0 { 0x1c00 } else { 0x1800 };
+      let px = (x + scx as usize) & 255; let py = (ly as usize + scy as usize) & 255;
+      let t = vram[map + (py / 8) * 32 + px / 8];
+      tile_pixel(vram, bgwin_tile_addr(lcdc, t), py % 8, px % 8)
+    }
+  }
+  /// object layer at screen x on line ly: Some((colour index 1-3, palette 0/1, behind_bg)) of the winning object
+  fn ref_object(vram: &[u8], oam: &[u8], lcdc: u8, x: usize, ly: u8) -> Option<(u8, u8, bool)> {
+    if lcdc & 0x02 == 0 { return None; }
+    let h: i32 = if lcdc & 0x04 != 0 { 16 } else { 8 };
+    // the first ten objects in OAM order whose Y range covers the line
+    let mut sel = [0usize; 10]; let mut n = 0;
+    let mut i = 0;
+    while i < 40 && n < 10 {
+      let oy = oam[4 * i] as i32 - 16;
+      if (ly as i32) >= oy && (ly as i32) < oy + h { sel[n] = i; n += 1; }
+      i += 1;
+    }
+    // among those covering x with a non-transparent pixel: lowest X wins, then lowest OAM index
+    let mut best: Option<(u8, u8, bool)> = None; let mut best_x = 0u8; 
+    let mut k = 0;
+    while k < n {
+      let o = sel[k];
+      let (oy, ox, mut tile, attr) = (oam[4 * o] as i32 - 16, oam[4 * o + 1], oam[4 * o + 2], oam[4 * o + 3]);
+      let sx = x as i32 + 8 - ox as i32; // column inside the object
+      if sx >= 0 && sx < 8 {
+        let mut row = ly as i32 - oy;
+        if attr & 0x40 != 0 { row = h - 1 - row; }
+        if h == 16 { tile &= 0xfe; }
+        let col = if attr & 0x20 != 0 { 7 - sx } else { sx } as usize;
+        let c = tile_pixel(vram, tile as usize * 16, row as usize, col);
+        if c != 0 && (best.is_none() || ox < best_x) { best = Some((c, (attr >> 4) & 1, attr & 0x80 != 0)); best_x = ox; }
+      }
+      k += 1;
+    }
+    best
+  }
+  fn ref_pixel(vram: &[u8], oam: &[u8], lcdc: u8, bgp: u8, obp0: u8, obp1: u8, scx: u8, scy: u8, wx: u8, wy: u8, x: usize, ly: u8) -> u8 {
+    let bg = ref_bgwin(vram, lcdc, scx, scy, wx, wy, x, ly);
+    match ref_object(vram, oam, lcdc, x, ly) {
+      Some((c, pal, behind)) if !(behind && bg != 0) => shade(if pal == 0 { obp0 } else { obp1 }, c),
+      _ => shade(bgp, bg),
+    }
+  }
+
+  // ---------------- harnesses ----------------
+
+  /// tile::interleave against the bit-by-bit definition, all 65536 inputs; X-flip multiply trick, all 256 inputs.
+  #[kani::proof]
+  #[kani::unwind(10)]
+  #[kani::stub(crate::devices::video::lcd::LCD::new, vstub::stub_lcd_new)]
+  fn c15_bit_tricks() {
+    let lo: u8 = kani::any(); let hi: u8 = kani::any();
+    let got = tile::interleave(lo, hi);
+    let mut want: u16 = 0;
+    let mut b = 0;
+    while b < 8 { want |= (((lo >> b) & 1) as u16) << (2 * b); want |= (((hi >> b) & 1) as u16) << (2 * b + 1); b += 1; }
+    vassert!(got == want, "C15.interleave");
+    // get_object_row with flip: bit-reversed bytes
+    let v = VideoState::new();
+    let mut vram = vec![0u8; 0x2000].into_boxed_slice();
+    let t: u8 = kani::any(); let row: usize = kani::any();
+    kani::assume(row < 16 && (t as usize) * 16 + 2 * row + 1 < 0x2000);
+    vram[(t as usize) * 16 + 2 * row] = lo; vram[(t as usize) * 16 + 2 * row + 1] = hi;
+    let plain = v.get_object_row(&vram, t as usize, row, false);
+    let flipped = v.get_object_row(&vram, t as usize, row, true);
+    vassert!(plain == want, "C15.object_row_plain");
+    let mut want_f: u16 = 0;
+    let mut c = 0;
+    while c < 8 { want_f |= ((want >> (2 * c)) & 3) << (2 * (7 - c)); c += 1; }
+    vassert!(flipped == want_f, "C15.object_row_flipped");
+    kani::cover!(true, "reached");
+    core::mem::forget(v);
+  }
+
+  /// One scan line through the real mode 2 -> 3 -> 0 sequence (114 machine cycles) with the given control registers and
+  /// object layout; tile maps, tile data and palettes symbolic.  Every written pixel equals the reference composition.
+  fn line(lcdc: u8, scx: u8, scy: u8, wx: u8, wy: u8, ly: u8, layout: u8) {
+    let mut v = VideoState::new();
+    v.set_lcd_control(lcdc | 0x81);
+    let (bgp, obp0, obp1): (u8, u8, u8) = (kani::any(), kani::any(), kani::any());
+    v.set_bgp(bgp); v.set_obj_palette(0, obp0); v.set_obj_palette(1, obp1);
+    v.set_scroll_x(scx); v.set_scroll_y(scy); v.set_window_x(wx); v.set_window_y(wy);
+    // drawn through kani::any so that a counterexample's VRAM is replayable natively
+    let raw: [u8; 0x2000] = kani::any();
+    let vram: Box<[u8]> = Box::new(raw);
+    let mut oam = vec![0u8; 0xa0].into_boxed_slice();
+    // object layouts: y places the object on line `ly`; tile / attributes symbolic where stated
+    match layout {
+      1 => { // two overlapping objects, equal X then OAM order, flips and priority symbolic
+        let a1: u8 = kani::any(); let a2: u8 = kani::any();
+        oam[0] = ly.wrapping_add(16); oam[1] = 20; oam[2] = kani::any(); oam[3] = a1 & 0xf0;
+        oam[4] = ly.wrapping_add(16 - 3); oam[5] = 20; oam[6] = kani::any(); oam[7] = a2 & 0xf0;
+        oam[8] = ly.wrapping_add(16); oam[9] = 17; oam[10] = kani::any(); oam[11] = 0;
+      }
+      2 => { // eleven objects on the line: the 11th must not be drawn; two of the first ten are off-screen (X=0, X=168)
+        let xs = [0u8, 168, 16, 32, 48, 64, 80, 96, 112, 128, 144];
+        let mut i = 0;
+        while i < 11 { oam[4 * i] = ly.wrapping_add(16); oam[4 * i + 1] = xs[i]; oam[4 * i + 2] = 1; oam[4 * i + 3] = 0; i += 1; }
+      }
+      _ => {}
+    }
+    // put the controller at the start of line `ly` (mode 2, dot 0) the way the schedule does
+    v.current_line = ly; v.current_mode = 2; v.current_mode_dots = 0;
+    v.find_current_line_sprites(&vram, &oam);
+    let mut i = 0;
+    while i < 114 { let _ = v.run_clock_cycles(ClockCycles(4), &vram, &oam); i += 1; }
+    let x: usize = kani::any();
+    kani::assume(x < 160);
+    let got = v.get_writing_buffer()[ly as usize * 160 + x];
+    let want = ref_pixel(&vram, &oam, lcdc | 0x81, bgp, obp0, obp1, scx, scy, wx, wy, x, ly);
+    vassert!(got == want, "C15.line.pixel");
+    vassert!(v.get_ly() == ly + 1 || ly == 143, "C15.line.advanced");
+    kani::cover!(true, "reached");
+    core::mem::forget(v);
+  }
+  macro_rules! lineh {
+    ($name:ident, $lcdc:expr, $scx:expr, $scy:expr, $wx:expr, $wy:expr, $ly:expr, $layout:expr) => {
+      #[kani::proof]
+      #[kani::unwind(180)]
+      #[kani::stub(crate::devices::video::lcd::LCD::new, vstub::stub_lcd_new)]
+      fn $name() { line($lcdc, $scx, $scy, $wx, $wy, $ly, $layout); }
+    };
+  }
+  // quick: BG with scroll wrap + signed tile addressing + second map; window starting mid-line near the right edge; objects
+  lineh!(c15_line_bg_scroll_signed, 0x08, 251, 7, 0, 0, 1, 0);
+  lineh!(c15_line_window_right_edge, 0x70, 3, 0, 163, 0, 8, 0);
+  lineh!(c15_line_objects_overlap, 0x12, 0, 0, 0, 0, 5, 1);
+  lineh!(c15_line_eleven_objects, 0x12, 0, 0, 0, 0, 20, 2);
+  #[cfg(verif_thorough)]
+  lineh!(c15_line_window_left, 0x30, 0, 0, 3, 2, 7, 0);
+  #[cfg(verif_thorough)]
+  lineh!(c15_line_objects_8x16, 0x16, 0, 0, 0, 0, 9, 1);
+
+  #[kani::proof]
+  #[kani::unwind(10)]
+  #[kani::stub(crate::devices::video::lcd::LCD::new, vstub::stub_lcd_new)]
+  fn c15_witness_must_fail() {
+    let v = VideoState::new();
+    let _ = tile::interleave(kani::any(), kani::any());
+    core::mem::forget(v);
+    assert!(false, "C15.witness");
+  }
+  // VERIF-END verif_c15
+}
